@@ -190,6 +190,23 @@ def stores_to_field(fn, field, owner=None):
             t = t[1]
         if not (t and t[0] == "field" and t[2] == field):
             return False
+        if owner is not None:
+            # the reference was taken of `x.field` with x of the owner type (the borrow's own projection says so)
+            l_, seen_ = p["l"], 0
+            while seen_ < 6:
+                seen_ += 1
+                ds_ = [d_ for d_ in fn.defs().get(l_, []) if d_[2]["k"] != "partial"]
+                if len(ds_) != 1:
+                    return False
+                r_ = ds_[0][2]
+                if r_["k"] == "use" and r_["op"]["k"] in ("copy", "move") and not r_["op"]["p"]["proj"]:
+                    l_ = r_["op"]["p"]["l"]
+                    continue
+                if r_["k"] in ("ref", "rawptr"):
+                    fe_ = [e_ for e_ in r_["p"]["proj"] if e_["k"] == "field"]
+                    return bool(fe_) and fe_[-1].get("name") == field and fe_[-1].get("of") == owner
+                return False
+            return False
         # the rest of the projection must not go into a sub-field named differently (a store *into* the field still counts)
         return True
     for bb in sorted(fn.live_blocks()):
